@@ -128,3 +128,11 @@ def finish_arena_obligation(ctx):
     ctx.add_ob("correspondence:arena(model vs implementation)", "correspondence",
                not [d for d in ctx.disagreements if d.get("engine") == "arena"],
                json.dumps(ctx.disagreements[:3], indent=1)[:3000])
+
+
+def run_fit_search(ctx):
+    """C12 at arena level: real arenas with header-changing / over-granting base allocators; the oracle
+    flags a request that needed two chunks or a with_capacity that produced less capacity than asked"""
+    n = 120 if ctx.quick() else 4000
+    run_arena(ctx, n, 100, "ledger", fields=(0, 1, 5), oracle_props=["C12"], seed_offset=500, label="fit-ledger")
+    finish_arena_obligation(ctx)
